@@ -201,7 +201,9 @@ def _fn_body(f, params, ndata, ind="    ") -> str:
             return f"{ind}return ({f[1]!r}{args},)\n" if not params else f"{ind}return ({f[1]!r}{args})\n"
         return f"{ind}return tuple(({f[1]!r}, _j{args}) for _j in range({ndata}))\n"
     if op == "add":
-        return f"{ind}return {a} + {f[1]}\n"
+        if ndata <= 1:
+            return f"{ind}return {a} + {f[1]}\n"
+        return f"{ind}return tuple({a} + {f[1]} + _j for _j in range({ndata}))\n"
     if op == "const":
         return f"{ind}return {_py(f[1])}\n"
     if op == "raise":
@@ -275,6 +277,47 @@ def build_node(n, env, is_async=False):
     raise ValueError(kind)
 
 
+def make_recorder():
+    """An EventProcessor recording a canonical, JSON-able view of every event (span ids -> indices)."""
+    from hypergraph.events.processor import EventProcessor
+
+    class Recorder(EventProcessor):
+        def __init__(self):
+            self.events = []
+            self.spans = {}
+            self.shutdowns = 0
+
+        def _sid(self, s):
+            if s is None:
+                return None
+            return self.spans.setdefault(s, len(self.spans))
+
+        def on_event(self, ev):
+            d = {"type": type(ev).__name__, "span": self._sid(ev.span_id), "parent": self._sid(ev.parent_span_id)}
+            for k in ("node_name", "graph_name", "status", "decision", "is_map", "map_size", "cached", "error_type"):
+                if hasattr(ev, k):
+                    v = getattr(ev, k)
+                    d[k] = getattr(v, "value", v) if not isinstance(v, (list, str, int, bool, type(None))) else v
+                    if k == "decision":
+                        d[k] = _canon_decision(v)
+            self.events.append(d)
+
+        def shutdown(self):
+            self.shutdowns += 1
+
+    return Recorder()
+
+
+def _canon_decision(v):
+    import hypergraph as hg
+
+    if v is hg.END or v == "END":
+        return "END"
+    if isinstance(v, list):
+        return ["END" if (t is hg.END or t == "END") else t for t in v]
+    return v
+
+
 class RealRun:
     """One execution of a PDL program on the implementation."""
 
@@ -296,6 +339,23 @@ def build_graph(g, env, is_async=False):
 
     nodes = [build_node(n, env, is_async) for n in g["nodes"]]
     G = Graph(nodes, name=g.get("name"))
+    if g.get("explicit_edges"):
+        # the same graph declared with explicit edges: every inferred data edge (with its values) and
+        # every gate->target edge the user would naturally write down
+        edges = []
+        for u, v, d in G.nx_graph.edges(data=True):
+            if d.get("edge_type") == "data":
+                edges.append((u, v, list(d.get("value_names", []))))
+            elif d.get("edge_type") == "ordering":
+                edges.append((u, v))
+        if g["explicit_edges"] == "with_gate_edges":
+            for n in g["nodes"]:
+                if n["kind"] in ("ifelse", "route"):
+                    tg = [n["when_true"], n["when_false"]] if n["kind"] == "ifelse" else n["targets"]
+                    for t in tg:
+                        if t != "END" and not any(e[0] == n["name"] and e[1] == t for e in edges):
+                            edges.append((n["name"], t))
+        G = Graph(nodes, edges=edges, name=g.get("name"))
     if g.get("bound"):
         G = G.bind(**g["bound"])
     if g.get("entrypoints"):
@@ -321,6 +381,10 @@ def run_real(g, run, rank=None):
         kw["on_missing"] = run["on_missing"]
     kw["error_handling"] = run.get("error_handling", "continue")
     obs = {}
+    rec = None
+    if run.get("events"):
+        rec = make_recorder()
+        kw["event_processors"] = [rec]
     with warnings.catch_warnings(record=True) as wlist:
         warnings.simplefilter("always")
         try:
@@ -357,6 +421,9 @@ def run_real(g, run, rank=None):
             obs["error_repr"] = f"{type(e).__name__}: {e}"[:300]
             obs["values"] = {}
     obs["log"] = rr.log
+    if rec is not None:
+        obs["events"] = rec.events
+        obs["shutdowns"] = rec.shutdowns
     obs["warnings"] = [str(w.message)[:120] for w in wlist]
     return obs
 
